@@ -94,7 +94,7 @@ func runC04(c *Ctx) {
 				if !strings.Contains(sk.Src, "templ.SafeURL = ") {
 					continue
 				}
-				direct := emitsConst(gf.Tree, "templ.SafeURL = ")
+				direct := gf == g.nearestEmitter("templ.SafeURL = ")
 				if !direct {
 					continue
 				}
@@ -131,9 +131,39 @@ func runC04(c *Ctx) {
 		// table loop): evaluating the path conditions on the constants
 		found := false
 		gp := c.pkg("generator")
+		// the URL treatment may also be DATA: a package-level descriptor (a struct literal one of whose text fields
+		// names templ.SafeURL) that a selector function returns for the URL attributes and one emitter interprets
+		var urlDesc types.Object
+		for _, nm := range gp.Types.Scope().Names() {
+			v, ok := gp.Types.Scope().Lookup(nm).(*types.Var)
+			if !ok {
+				continue
+			}
+			if cl, ok := ast.Unparen(pkgVarInit(gp, nm)).(*ast.CompositeLit); ok && pkgVarInit(gp, nm) != nil {
+				for _, el := range cl.Elts {
+					if kv, ok := el.(*ast.KeyValueExpr); ok {
+						if sv, isC := constString(g.info, kv.Value); isC && strings.Contains(sv, "templ.SafeURL") {
+							urlDesc = v
+						}
+					}
+				}
+			}
+		}
 		for _, gf := range g.order {
 			calls := false
+			if urlDesc != nil {
+				// with a descriptor, the dispatcher is whoever names it
+				ast.Inspect(gf.Decl.Body, func(y ast.Node) bool {
+					if id, ok := y.(*ast.Ident); ok && g.info.Uses[id] == urlDesc {
+						calls = true
+					}
+					return true
+				})
+			}
 			ast.Inspect(gf.Decl.Body, func(y ast.Node) bool {
+				if urlDesc != nil {
+					return false
+				}
 				if call, ok := y.(*ast.CallExpr); ok {
 					if fn := calleeOf(g.info, call); fn != nil && types.Object(fn) == urlWriter.Obj {
 						calls = true
@@ -270,6 +300,16 @@ func runC04(c *Ctx) {
 							fn, _ = g.info.Uses[fv.Sel].(*types.Func)
 						case *ast.Ident:
 							fn, _ = g.info.Uses[fv].(*types.Func)
+						}
+						// … or the descriptor it returns
+						if rid, ok := den.deref(pth.Ret.Results[0], pth.Env).(*ast.Ident); ok && urlDesc != nil {
+							if rv, ok := g.info.Uses[rid].(*types.Var); ok && rv.Parent() == gp.Types.Scope() {
+								if types.Object(rv) == urlDesc {
+									u = true
+								} else if types.Identical(rv.Type(), urlDesc.Type()) {
+									o = true
+								}
+							}
 						}
 						if fn != nil && fn.Pkg() == gp.Types {
 							if types.Object(fn) == urlWriter.Obj {
